@@ -444,3 +444,23 @@ func (p *Program) funcValuesOf(v ssa.Value, depth int, seen map[ssa.Value]bool) 
 	}
 	return out
 }
+
+// generatorConstructors: the package-level functions that build generators (result type *Generator[…]), by name.
+func generatorConstructors(r *Run) []string {
+	p := r.P
+	var out []string
+	for _, fn := range p.FuncList {
+		if fn.Signature.Recv() != nil || fn.Parent() != nil || fn.Signature.Results().Len() != 1 {
+			continue
+		}
+		pt, ok := fn.Signature.Results().At(0).Type().(*types.Pointer)
+		if !ok {
+			continue
+		}
+		if nt, ok := pt.Elem().(*types.Named); ok && nt.Obj().Name() == "Generator" {
+			out = append(out, p.fnName(fn))
+		}
+	}
+	sortStrings(out)
+	return out
+}
